@@ -1,5 +1,53 @@
 #![allow(non_snake_case)]
-// unit `chordal_snode` : construction of the supernodal elimination tree (C17)  -- header completed at the end of the file's development
+// unit `chordal_snode` : construction of the supernodal elimination tree (C17): what the sibling unit chordal_tree dropped of
+// supernode_tree.rs.  (cargo feature `sdp`, source text only; `//@features serde,sdp`.)
+//
+// PROVED (real text, unbounded; panic-freedom = every index / overflow / unwrap obligation, plus the clause given):
+//   post_order            statement slice `post_order_loop` (the counter and the `while let Some(v) = stack.pop()` loop): terminates; every
+//       vertex reachable from the root is popped EXACTLY ONCE (ghost pop sequence ps without repetition); the k-th vertex popped gets
+//       order nc - k, so the orders are distinct values nc, nc-1, .. >= 1 and `i -= 1` never underflows - GIVEN that at most nc entries of
+//       `parent` differ from INACTIVE_NODE; a vertex that is never popped keeps nc + 1; every popped vertex but the root was pushed
+//       by its parent, popped earlier (=> order[w] < order[parent[w]] <= nc = order[root]: lemma_post_order_topological); all children of
+//       a popped vertex are popped; the child sets keep their members, those of popped vertices are sorted ascending.
+//       No acyclicity of `parent` is needed: a vertex is only ever pushed by its unique parent
+//   pothen_sun            statement slice `pothen_sun_loop` (the loop `for &v in post`; same text as the slice of chordal_tree, stronger
+//       contract): sn_inv (partition) AND the VALUES of snode_parent: there is top[.] such that the supernode of representative k is the
+//       path k -> parent -> .. -> top[k] of the elimination tree (on_path), snode_parent[k] = representative of the supernode that
+//       contains parent[top[k]], a different supernode and itself a representative, resp. NO_PARENT when top[k] is the root
+//       (snode_parent_ok); non-representatives keep NO_PARENT; the temporary self-pointers `snode_parent[v] = v` are all overwritten.
+//       statement slice `pothen_sun_renumber` (the last loop): snode_parent[i] = POSITION of the recorded parent vertex in the list of
+//       representatives, NO_PARENT iff it is not in the list (=> values < number of supernodes or NO_PARENT = parent_ok of chordal_tree)
+//   find_supernodes       statement slice `find_supernodes_fill`: set r = exactly the vertices whose representative is r, once each,
+//       increasing; every vertex in exactly one set; sets of non-representatives stay empty, a representative's set contains it
+//   find_separators       (whole function) separator k = the stored rows of column min(supernode k) of L that are not members of the
+//       supernode, once each, in column order; `iter().min().unwrap()` needs non-empty supernodes
+//   find_higher_order_neighbors (as in chordal_tree), SuperNodeTree::get_clique (union of supernode and separator = supernode ++
+//       separator vertices not in it; without repetitions if the two sets have none)
+// ASSUMED (hand-written, not verified):
+//   VertexSet stand-in (units/inc/chordal_sets.rs) incl. `sort` (same members, ascending) and `union` (a's members, then b's members not in
+//     a: indexmap documentation); new_vertex_sets;
+//   rule extset: Vec::extend(set.iter()) = extend_from_slice of the member slice; rule setmin + usize_slice_min: Iterator::min; rule
+//     iterpos + usize_slice_position: Iterator::position (first index of an equal element / None).
+// EXTRACTOR (additive): rules `extset`, `setmin`, `iterpos` (each with its argument in the docstring).
+// PRECONDITIONS and the call sites:
+//   post_order_loop `cnt_active(parent) <= nc`: 1st / 2nd call in SuperNodeTree::new: nc = parent.len(); call after the parent-child merge:
+//     n_cliques = number of cliques not marked inactive (tree_ok, unit chordal_merge); call after the clique-graph merge: NOT checked
+//     (chordal_merge D2).  `kids_fwd` (a member of children[p] has parent p): children_from_parent (chordal_tree) / tree_ok.  A root exists
+//     (`position(..).unwrap()`, dropped): parent_from_L resp. has_root of tree_ok;
+//   pothen_sun_loop `is_post_order` (post = a permutation with every vertex before its parent, single root root_index): post_order's loop
+//     gives the orders (proved), that `sort_by(order)` yields a permutation sorted by them is the assumed std contract; only the last
+//     vertex has no parent (parent_from_L, chordal_tree).  `degree[v] >= 1` off the root: connect_graph (chordal_decomp).
+//     With SEVERAL roots all of them would be listed as children of root_index (`children[root_index].insert(v)`) and the supernode of a
+//     second root would get the first root's supernode as parent: excluded by the precondition, not by the code;
+//   pothen_sun_renumber: repr_vertex / repr_parent are built by closures just before (dropped): by inspection they have equal length;
+//   find_supernodes_fill `snode_index[x] < n`: sn_inv of pothen_sun_loop;
+//   find_separators `supernodes non-empty, members < L.n`: `snode.retain(|x| !x.is_empty())` (closure, dropped) + find_supernodes_fill.
+//     NOTE the representative used here is the SMALLEST member, pothen_sun's is the first vertex of the path: the same vertex because
+//     parents have larger numbers (parent_upwards, chordal_tree: L strictly lower triangular) - by inspection, not proved.
+// DROPPED: the parts of post_order / pothen_sun / find_supernodes outside the slices (position / position_all / map / collect / for_each /
+//   retain / sort_by closures), reorder_snode_consecutively (slice sort, IndexSet::extend of a range and of an iterator, invperm,
+//   ipermute), SuperNodeTree::new (orchestration; assumed in chordal_merge with the inventory of what is proved).
+// MUTATION ROUND (scratch copy, 28 wrong edits of the real functions, one at a time): all rejected by a named obligation.
 use vstd::prelude::*;
 verus! {
 global size_of usize == 8;
@@ -140,6 +188,8 @@ pub open spec fn pop_seq_ok(parent: Seq<usize>, ch: Seq<VertexSet>, order: Seq<u
         let ghost cv = children@[v as int]@;
         proof {
             assert(same_members(cv, chb[v as int]@));
+            assert(chb[v as int]@.no_duplicates());
+            assert(cv.no_duplicates() && ascending(cv));
             assert forall|m: int| 0 <= m < cv.len() implies #[trigger] cv[m] < n && parent@[cv[m] as int] == v by {
                 assert(cv.contains(cv[m]));
                 assert(chb[v as int]@.contains(cv[m]));
@@ -195,7 +245,7 @@ pub open spec fn pop_seq_ok(parent: Seq<usize>, ch: Seq<VertexSet>, order: Seq<u
             assert(cv.no_duplicates());
             lemma_concat_nodup(st1, cv);
             assert(disjoint(stack@, ps)) by {
-                assert forall|x: usize| !(stack@.contains(x) && ps.contains(x)) by {
+                assert forall|x: usize| #![auto] !(stack@.contains(x) && ps.contains(x)) by {
                     if stack@.contains(x) && ps.contains(x) {
                         let k = choose|k: int| 0 <= k < ps.len() && ps[k] == x;
                         if cv.contains(x) { let m = choose|m: int| 0 <= m < cv.len() && cv[m] == x; assert(!ps.contains(cv[m])); }
@@ -253,8 +303,11 @@ pub open spec fn pop_seq_ok(parent: Seq<usize>, ch: Seq<VertexSet>, order: Seq<u
             }
             if ps0.len() == 0 { assert(v == root); }
             assert forall|k: int| 0 <= k < ps.len() implies ascending(#[trigger] children@[ps[k] as int]@) by {
-                if k < ps0.len() { assert(ps0[k] == ps[k]); assert(ps0.contains(ps0[k])); assert(children@[ps0[k] as int] == chb[ps0[k] as int]); }
-                else { assert(chb[v as int]@.no_duplicates()); }
+                if k < ps0.len() {
+                    assert(ps0[k] == ps[k]); assert(ps0.contains(ps0[k])); assert(ps0[k] != v);
+                    assert(children@[ps0[k] as int] == chb[ps0[k] as int]);
+                    assert(ascending(chb[ps0[k] as int]@));
+                } else { assert(ps[k] == v); assert(children@[v as int]@ == cv); }
             }
             gs = stack@;
         }
@@ -370,7 +423,7 @@ pub proof fn lemma_members_upto(si: Seq<isize>, r: int, k: int)
         // C17: set number r holds exactly the vertices whose representative is r, each once, in increasing order: every vertex lies in
         // exactly one set, the one of its representative
         forall|r: int| 0 <= r < snode_index@.len() ==> (#[trigger] final(snode)@[r])@ == members_upto(snode_index@, r, snode_index@.len() as int),
-        forall|x: int| 0 <= x < snode_index@.len() ==> final(snode)@[rep_of(snode_index@, x)]@.contains(x as usize),
+        forall|x: int| 0 <= x < snode_index@.len() ==> final(snode)@[#[trigger] rep_of(snode_index@, x)]@.contains(x as usize),
         forall|r: int, x: usize| 0 <= r < snode_index@.len() && #[trigger] final(snode)@[r]@.contains(x) ==> x < snode_index@.len() && rep_of(snode_index@, x as int) == r,
         // the set of a vertex that is nobody's representative stays empty; that of a representative contains it
         forall|r: int| 0 <= r < snode_index@.len() && snode_index@[r] < 0 ==> (#[trigger] final(snode)@[r])@.contains(r as usize),
@@ -398,7 +451,7 @@ it
         }
 //@post
     proof {
-        assert forall|x: int| 0 <= x < n implies snode@[rep_of(si, x)]@.contains(x as usize) by { lemma_members_upto(si, rep_of(si, x), n); }
+        assert forall|x: int| 0 <= x < n implies snode@[#[trigger] rep_of(si, x)]@.contains(x as usize) by { lemma_members_upto(si, rep_of(si, x), n); }
         assert forall|r: int, x: usize| 0 <= r < n && #[trigger] snode@[r]@.contains(x) implies x < n && rep_of(si, x as int) == r by {
             lemma_members_upto(si, r, n);
             assert(members_upto(si, r, n).contains((x as int) as usize));
@@ -697,7 +750,7 @@ pub proof fn lemma_ps_step(parent: Seq<usize>, post: Seq<usize>, pos: Seq<int>, 
         forall|m: int| 0 <= m < chv.len() ==> #[trigger] chv[m] < parent.len() && pos[chv[m] as int] <= idx && (chv[m] == v || (chv[m] != root && parent[chv[m] as int] == v)),
         forall|w: int| 0 <= w < parent.len() && pos[w] < idx && w != root && parent[w] == v ==> #[trigger] chv.contains(w as usize),
         forall|m: int| 0 <= m < chv.len() && rep_of(si1, chv[m] as int) != kp ==> sp1[rep_of(si1, #[trigger] chv[m] as int)] == kp,
-        forall|l: int| 0 <= l < parent.len() && #[trigger] sp1[l] != spm[l] ==> sp1[l] == kp && exists|m: int| 0 <= m < chv.len() && rep_of(si1, chv[m] as int) == l && l != kp,
+        forall|l: int| 0 <= l < parent.len() && #[trigger] sp1[l] != spm[l] ==> sp1[l] == kp && exists|m: int| 0 <= m < chv.len() && rep_of(si1, #[trigger] chv[m] as int) == l && l != kp,
     ensures
         ps_struct(parent, si1, top1, pos, idx + 1), ps_vals(parent, si1, sp1, top1, pos, idx + 1),
 {
@@ -796,7 +849,7 @@ pub proof fn lemma_ps_step(parent: Seq<usize>, post: Seq<usize>, pos: Seq<int>, 
                 assert(top1[l] == w);
                 if spm[l] != sp0[l] { assert(l == kp); assert(top1[kp] == v || top1[kp] == p); }
                 if sp1[l] != spm[l] {
-                    let m = choose|m: int| 0 <= m < chv.len() && rep_of(si1, chv[m] as int) == l && l != kp;
+                    let m = choose|m: int| 0 <= m < chv.len() && rep_of(si1, #[trigger] chv[m] as int) == l && l != kp;
                     assert(top1[rep_of(si1, chv[m] as int)] == chv[m]);
                 }
             }
@@ -806,7 +859,7 @@ pub proof fn lemma_ps_step(parent: Seq<usize>, post: Seq<usize>, pos: Seq<int>, 
         if sp1[k] != NO_PARENT {
             assert(written_ok(parent, si0, sp0, top0, pos, idx, k));
             if sp1[k] != spm[k] {
-                let m = choose|m: int| 0 <= m < chv.len() && rep_of(si1, chv[m] as int) == k && k != kp;
+                let m = choose|m: int| 0 <= m < chv.len() && rep_of(si1, #[trigger] chv[m] as int) == k && k != kp;
                 assert(top1[rep_of(si1, chv[m] as int)] == chv[m]);
                 lemma_rep_range(si1, n, chv[m] as int);
             } else if spm[k] != sp0[k] {
@@ -1005,7 +1058,7 @@ it2
                     forall|m: int| 0 <= m < chv.len() ==> #[trigger] chv[m] < n,
                     forall|x: int| 0 <= x < n ==> 0 <= #[trigger] rep_of(si1, x) < n,
                     forall|m: int| 0 <= m < it2.index@ && rep_of(si1, chv[m] as int) != kp ==> snode_parent@[rep_of(si1, #[trigger] chv[m] as int)] == kp,
-                    forall|l: int| 0 <= l < n && #[trigger] snode_parent@[l] != spm[l] ==> snode_parent@[l] == kp && exists|m: int| 0 <= m < it2.index@ && rep_of(si1, chv[m] as int) == l && l != kp,
+                    forall|l: int| 0 <= l < n && #[trigger] snode_parent@[l] != spm[l] ==> snode_parent@[l] == kp && exists|m: int| 0 <= m < it2.index@ && rep_of(si1, #[trigger] chv[m] as int) == l && l != kp,
 //@body_start 2
                 let ghost gm = it2.index@ as int;
                 let ghost spb = snode_parent@;
@@ -1016,11 +1069,11 @@ it2
                     assert forall|m: int| 0 <= m < gm + 1 && rep_of(si1, chv[m] as int) != kp implies snode_parent@[rep_of(si1, #[trigger] chv[m] as int)] == kp by {
                         if m < gm { assert(spb[rep_of(si1, chv[m] as int)] == kp); }
                     }
-                    assert forall|q: int| 0 <= q < n && #[trigger] snode_parent@[q] != spm[q] implies snode_parent@[q] == kp && exists|m: int| 0 <= m < gm + 1 && rep_of(si1, chv[m] as int) == q && q != kp by {
+                    assert forall|q: int| 0 <= q < n && #[trigger] snode_parent@[q] != spm[q] implies snode_parent@[q] == kp && exists|m: int| 0 <= m < gm + 1 && rep_of(si1, #[trigger] chv[m] as int) == q && q != kp by {
                         if q == l && l != kp { assert(0 <= gm < gm + 1 && rep_of(si1, chv[gm] as int) == q && q != kp); }
                         else {
                             assert(snode_parent@[q] == spb[q]);
-                            let m = choose|m: int| 0 <= m < gm && rep_of(si1, chv[m] as int) == q && q != kp;
+                            let m = choose|m: int| 0 <= m < gm && rep_of(si1, #[trigger] chv[m] as int) == q && q != kp;
                             assert(0 <= m < gm + 1 && rep_of(si1, chv[m] as int) == q && q != kp);
                         }
                     }
